@@ -129,7 +129,7 @@ def gen_op(rng: random.Random, cfg: dict, kind: str | None = None) -> dict:
             scribble=rng.random() < 0.25,
         )
         if inval:
-            op["invalid"] = rng.choice(["exists", "no_time", "no_track", "no_pos", "no_pos", "partial_pos", "id_overflow", "bad_pixels", "bad_value"])
+            op["invalid"] = rng.choice(["exists", "no_time", "no_track", "no_pos", "no_pos", "partial_pos", "id_overflow", "bad_pixels", "bad_value", "none_pos"])
     elif kind == "delete_node":
         cls = ["any", "any", "leaf", "root", "div_parent", "div_child", "isolated", "skip_src", "one_child"]
         if fl.get("division_bias"):
